@@ -127,6 +127,15 @@ func scTerm(tname, how string) func(x *vs.Exec) {
 			vs.Fail("setup other: %s", r)
 			return
 		}
+		// ... and so must its routes on the very hosts the terminating proxy uses, told apart only by the routing user
+		for _, m := range []*msg.NewProxy{
+			{ProxyName: "other-http", ProxyType: "http", CustomDomains: []string{"a.example.com"}, RouteByHTTPUser: "ou"},
+			{ProxyName: "other-mux", ProxyType: "tcpmux", Multiplexer: "httpconnect", CustomDomains: []string{"m.example.com"}, RouteByHTTPUser: "ou"}} {
+			if r := o.Reg(m); !strings.HasPrefix(r, "ok") {
+				vs.Fail("setup %s: %s", m.ProxyName, r)
+				return
+			}
+		}
 		pinger(o) // the bystander keeps sending heartbeats
 		a := w.MustLogin("a", sw.LoginOpt{User: "ua", PoolCount: 1})
 		pinger(a)
